@@ -52,7 +52,8 @@ def main():
         shutil.copy(demo, os.path.join(ddir, "zz_demo_test.go"))
         cmd = meta.get("demo_cmd", "go test -count=1 -run Demo .")
         # the agent's command line may name its own worktree: run in the verification worktree instead
-        cmd = cmd.replace("/tmp/wt/%s-out" % pid, out).replace("/tmp/wt/%s" % pid, vt)
+        for base in ("/tmp/wt2", "/tmp/wt"):
+            cmd = cmd.replace("%s/%s-out" % (base, pid), out).replace("%s/%s" % (base, pid), vt)
         if "-count" not in cmd:
             cmd = cmd.replace("go test", "go test -count=1", 1)
         rcw, ow = sh(cmd + " 2>&1 | tail -15", cwd=vt, timeout=900)
